@@ -18,7 +18,7 @@ import (
 
 // ConnSpec: the state a connection is brought into before Close is called.
 type ConnSpec struct {
-	State string `json:"state"` // idle | in-copy | auth-prompt | after-panic | midbatch | midmsg | admitted | registered | in-stmt | in-exec | in-parser | pipelined
+	State string `json:"state"` // idle | discarding | in-copy | auth-prompt | after-panic | midbatch | midmsg | admitted | registered | in-stmt | in-exec | in-parser | pipelined
 }
 
 // CloserSpec: one Close caller and the point it is (cooperatively) held at.
@@ -223,6 +223,14 @@ func Run(c Case) (res core.Result) {
 			s.C.Send(pgwire.CopyData([]byte("first chunk\n")))
 			s.C.WaitIdle(grace * 4)
 			rest[i] = pgwire.CopyDone()
+		case "discarding":
+			// a batch whose Bind failed: the messages behind it were skipped, no Sync yet; nothing of it
+			// is in flight
+			b := append(pgwire.Parse("", "select 1", nil), pgwire.Bind("", "no such statement", nil, nil, nil)...)
+			b = append(b, pgwire.Execute("", 0)...)
+			b = append(b, pgwire.Describe('P', "")...)
+			s.C.Send(append(b, pgwire.Parse("x", "select 1", nil)...))
+			s.C.WaitIdle(grace * 4)
 		case "midbatch":
 			// half way through an extended-query series: Parse and Bind answered, no Sync yet; the rest
 			// of the series arrives after Close has returned and must not start anything
